@@ -46,7 +46,8 @@
         heap_put_isolated                 — after a Put the writer reads its value, every other (label, key) is unchanged
         heap_get_is_pure                  — a Get returns `specView` and changes no view of any label for any key,
                                             although its read-through insert mutates shared nodes in place
-        heap_stable_refines               — the stabilisation step keeps the survivors' views; persisted = view(l)
+        heap_stable_views                 — the stabilisation step keeps the survivors' views; abstract persisted = view(l)
+                                            (the heap-side Collect + batch write: section (d), utree_setStable)
         heap_run_refines                  — induction over arbitrary operation sequences from the initial state
         CowHeapL.setBlock_is_hSetBlock, putAcct_is_hPut, getAcct_is_hGet (Lemmas/CowHeapUTree.lean)
                                           — `setBlock`, `putAcct true`, `getAcct` of the DRIVER's model `LemoModel.UTree`
@@ -59,6 +60,7 @@
 import LemoProofs.Lemmas.CowSpecPrune
 import LemoProofs.Lemmas.CowHeapTop
 import LemoProofs.Lemmas.CowHeapUTree
+import LemoProofs.Lemmas.CowHeapUStable
 import LemoModel.UTree
 namespace LemoProofs.C09
 open LemoModel.CowSpec LemoProofs.CowSpecL
@@ -428,7 +430,7 @@ theorem heap_get_is_pure {s : HSt} {a : ASt} (hr : HRel E s a) (l k : Nat) :
 /-- **heap_stable_refines**: the stabilisation step on the heap (no heap change; the roots of the pruned blocks are
     dropped, LastConfirm's root becomes `l`'s) keeps the invariant, every surviving block reads what it read before,
     and the persisted accounts are the view of `l` -/
-theorem heap_stable_refines {s : HSt} {a a' : ASt} (hr : HRel E s a) {l : Nat} (hs : aStable a l = some a') :
+theorem heap_stable_views {s : HSt} {a a' : ASt} (hr : HRel E s a) {l : Nat} (hs : aStable a l = some a') :
     HRel E (hStable s a' l) a' ∧
     (∀ x ∈ a'.blocks, ∀ k,
       peekTop (hStable s a' l).heap ((hStable s a' l).rootOf x.label) (E.enc k) ((a'.disk k).map (dataK k)) =
@@ -478,5 +480,282 @@ example : (hrun encDemo hinit (init 0 0 (fun k => if k = 7 then some 100 else no
     [.setBlock 1 0 1, .setBlock 2 0 1, .get 2 7 [1], .put 1 7 5, .setBlock 3 1 2]).isSome = true := by decide
 
 end HeapRefinement
+
+/-! ## (d) the machine the driver executes (`LemoModel.UTree`) refines the abstract machine -/
+
+section UTreeRefinement
+open LemoModel.CowTrie LemoModel.UTree LemoProofs.CowHeapL
+
+variable {L : Nat} {E : Enc L}
+
+/-- the operations of the driver (`Driver/C09.lean`: `block`, `put`, `get`, `stable`, `reopen`; keys are `E.enc k`,
+    the account label is the key index) -/
+inductive UOp where
+  | block (l : Nat) (p : Option Nat) (h : Nat)
+  | put (l k v : Nat)
+  | get (l k : Nat)
+  | stable (l : Nat)
+  | reopen
+
+/-- one driver step: a rejected / panicking operation leaves the state alone, exactly like `Driver.C09.step` -/
+def ustep (E : Enc L) (u : St) : UOp → St
+  | .block l p h => match setBlock u l p h with
+    | .ok s => s
+    | .error _ => u
+  | .put l k v => match putAcct true u l (E.enc k) k v with
+    | .ok s => s
+    | _ => u
+  | .get l k => match getAcct u l (E.enc k) k with
+    | .ok (s, _) => s
+    | _ => u
+  | .stable l => match setStable u l with
+    | .ok (some (s, _)) => s
+    | _ => u
+  | .reopen => u.reopen
+
+def urun (E : Enc L) (u : St) (ops : List UOp) : St := ops.foldl (ustep E) u
+
+/-- the usage guard of a `put`, stated on the driver's state: the block is unconfirmed, has no child yet, and its
+    own `Collect(height)` does not yet contain the account (one Put per account per block — `Manager.Save`) -/
+def PutGuardU (E : Enc L) (u : St) (l k : Nat) : Prop :=
+  ∃ b, findBlk u l = some b ∧ (∀ x ∈ u.blocks, x.parent ≠ some l) ∧
+    ∀ ds, collectTop u.heap b.root b.height = .ok ds → ∀ d ∈ ds, d.addr ≠ k
+
+/-- every `put` of the run satisfies the usage guard in the state in which it is executed -/
+def GuardedU (E : Enc L) : St → List UOp → Prop
+  | _, [] => True
+  | u, op :: ops => (match op with
+      | .put l k _ => PutGuardU E u l k
+      | _ => True) ∧ GuardedU E (ustep E u op) ops
+
+/-- abstract states reachable by abstract operations and restarts -/
+inductive AReach : ASt → ASt → Prop where
+  | refl (a : ASt) : AReach a a
+  | step {a b : ASt} (op : Op) : AReach a b → AReach a (stepOp b op)
+  | restart {a b : ASt} : AReach a b → AReach a (init b.sl b.sh b.disk)
+
+theorem AReach.steps {a b : ASt} (h : AReach a b) (ops : List Op) : AReach a (run b ops) := by
+  unfold run
+  induction ops generalizing b with
+  | nil => exact h
+  | cons op ops ih => exact ih (AReach.step op h)
+
+/-- the initial state of a database that has a stable block (after `open` + genesis, or after any restart) -/
+theorem utree_inv_open (E : Enc L) (cm dk : List (Nat × Nat)) (sl sh : Nat) (hc : ∃ c ∈ cm, c.1 = sl) :
+    URel E (openDb cm dk (some (sl, sh))) (init sl sh (fun k => dk.lookup k)) :=
+  urel_open E cm dk sl sh hc
+
+/-- the usage guard on the driver's state implies the guards of `aPut` -/
+theorem putGuard_abstract {u : St} {a : ASt} (hr : URel E u a) {l k : Nat} (v : Nat) (hg : PutGuardU E u l k) :
+    ∃ a', aPut a l k v = some a' := by
+  obtain ⟨b, hb, hleaf, hcoll⟩ := hg
+  obtain ⟨ab, h1, h2, _⟩ := hr.ablk hb
+  have hinv := hr.cinv
+  unfold aPut
+  rw [h1]
+  simp only
+  have hc : hasChild a.blocks l = false := by
+    cases hh : hasChild a.blocks l with
+    | false => rfl
+    | true =>
+      obtain ⟨z, hz, hzp⟩ := mem_of_hasChild hh
+      obtain ⟨x, g1, _, _, g4⟩ := hr.of_amem hz
+      exact absurd (by rw [g4, hzp]) (hleaf x g1)
+  rw [hc]
+  simp only [Bool.false_eq_true, if_false]
+  have hw : ab.writes k = none := by
+    cases hw : ab.writes k with
+    | none => rfl
+    | some v0 =>
+      exfalso
+      obtain ⟨e, he1, he2, he3⟩ := (collect_exact hinv (findB_some h1).1 k v0).mpr hw
+      obtain ⟨q1, full, vis, q2⟩ := hr.hrel
+      have hroot : (hsOf u).roots l = some b.root := by show (findBlk u l).map _ = _; rw [hb]; rfl
+      obtain ⟨ds, d1, d2⟩ := rel_collect q2 hroot h1
+      have hct : collectTop u.heap b.root b.height = .ok ds := by
+        show collectTop (hsOf u).heap b.root b.height = _
+        rw [collectTop_sim q1, h2]; exact d1
+      have : (⟨k, v0⟩ : Data) ∈ ds := (d2 ⟨k, v0⟩).mpr (by
+        show ab.tbl k = _
+        rw [he1]; congr 1
+        cases e with
+        | mk ev ed => simp only at he2 he3; rw [he2, he3])
+      exact hcoll ds hct _ this rfl
+  rw [hw]
+  simp only [Option.isSome_none, Bool.false_eq_true, if_false]
+  exact ⟨_, rfl⟩
+
+/-- **one driver step refines the abstract machine** -/
+theorem utree_inv_step {u : St} {a : ASt} (hr : URel E u a) (op : UOp)
+    (hg : match op with
+      | .put l k _ => PutGuardU E u l k
+      | _ => True) :
+    ∃ a', AReach a a' ∧ URel E (ustep E u op) a' := by
+  cases op with
+  | block l p h =>
+    show ∃ a', _ ∧ URel E (match setBlock u l p h with
+      | .ok s => s
+      | .error _ => u) a'
+    cases hs : setBlock u l p h with
+    | error e => exact ⟨a, AReach.refl a, hr⟩
+    | ok u' =>
+      cases p with
+      | none =>
+        -- with a stable block present a parentless block is rejected
+        exfalso
+        unfold setBlock at hs
+        split at hs
+        · cases hs
+        · rw [hr.stable] at hs
+          simp at hs
+      | some p =>
+        obtain ⟨a', h1, h2⟩ := urel_setBlock hr hs
+        refine ⟨a', ?_, h2⟩
+        have : a' = stepOp a (.setBlock l p h) := by
+          show a' = (aSetBlock a l p h).getD a
+          rw [h1]; rfl
+        rw [this]; exact AReach.step _ (AReach.refl a)
+  | put l k v =>
+    obtain ⟨a', ha'⟩ := putGuard_abstract hr v hg
+    obtain ⟨u', h1, h2⟩ := urel_put hr ha'
+    refine ⟨a', ?_, ?_⟩
+    · have : a' = stepOp a (.put l k v) := by
+        show a' = (aPut a l k v).getD a
+        rw [ha']; rfl
+      rw [this]; exact AReach.step _ (AReach.refl a)
+    · show URel E (match putAcct true u l (E.enc k) k v with
+        | .ok s => s
+        | _ => u) a'
+      rw [h1]; exact h2
+  | get l k =>
+    show ∃ a', _ ∧ URel E (match getAcct u l (E.enc k) k with
+      | .ok (s, _) => s
+      | _ => u) a'
+    by_cases hl : (findBlk u l).isSome ∨ ∃ c ∈ u.committed, c.1 = l
+    · obtain ⟨u', sharers, h1, h2⟩ := urel_get hr l k hl
+      refine ⟨(aGet a l k sharers).1, AReach.step (.get l k sharers) (AReach.refl a), ?_⟩
+      rw [h1]; exact h2
+    · have h1 : findBlk u l = none := by
+        cases hf : findBlk u l with
+        | none => rfl
+        | some b => exact absurd (Or.inl (by rw [hf]; rfl)) hl
+      have h2 : ∀ c ∈ u.committed, c.1 ≠ l := fun c hc e => hl (Or.inr ⟨c, hc, e⟩)
+      rw [getAcct_unknown h1 h2]
+      exact ⟨a, AReach.refl a, hr⟩
+  | stable l =>
+    show ∃ a', _ ∧ URel E (match setStable u l with
+      | .ok (some (s, _)) => s
+      | _ => u) a'
+    cases hf : findBlk u l with
+    | none => rw [setStable_unknown hf]; exact ⟨a, AReach.refl a, hr⟩
+    | some b =>
+      obtain ⟨u', rm, cs, h1, h2, _⟩ := urel_setStable hr hf
+      rw [h1]
+      exact ⟨_, (AReach.refl a).steps _, h2⟩
+  | reopen => exact ⟨_, AReach.restart (AReach.refl a), urel_reopen hr⟩
+
+theorem AReach.trans {a b c : ASt} (h1 : AReach a b) (h2 : AReach b c) : AReach a c := by
+  induction h2 with
+  | refl => exact h1
+  | step op _ ih => exact AReach.step op ih
+  | restart _ ih => exact AReach.restart ih
+
+/-- **utree_run_refines**: every run of the driver's machine whose Puts respect the usage guard stays related to a
+    state of the abstract machine (reached by abstract operations, with sharer sets for the reads, and restarts) -/
+theorem utree_run_refines : ∀ (ops : List UOp) {u : St} {a : ASt}, URel E u a → GuardedU E u ops →
+    ∃ a', AReach a a' ∧ URel E (urun E u ops) a'
+  | [], u, a, hr, _ => ⟨a, AReach.refl a, hr⟩
+  | op :: ops, u, a, hr, ⟨g1, g2⟩ => by
+    obtain ⟨a1, r1, h1⟩ := utree_inv_step hr op g1
+    obtain ⟨a2, r2, h2⟩ := utree_run_refines ops h1 g2
+    exact ⟨a2, r1.trans r2, h2⟩
+
+/-- **utree_view_refines**: in a related state, what `Get` would return through ANY label whose trie the driver's
+    model hands out is the specified view -/
+theorem utree_view_refines {u : St} {a : ASt} (hr : URel E u a) (l k : Nat)
+    (hl : (findBlk u l).isSome ∨ ∃ c ∈ u.committed, c.1 = l) :
+    peekAcct u l (E.enc k) k = .ok (specView a l k) := by
+  have hroot : rootOf u l = .ok ((hsOf u).rootOf l) := by
+    cases hf : findBlk u l with
+    | some b => exact rootOf_live (corr_hsOf u) hf
+    | none =>
+      rcases hl with h | ⟨c, hc1, hc2⟩
+      · rw [hf] at h; cases h
+      · cases hfind : u.committed.find? (fun c => c.1 == l) with
+        | none =>
+          have := List.find?_eq_none.mp hfind c hc1
+          simp [hc2] at this
+        | some cm => exact rootOf_committed (corr_hsOf u) hf hfind
+  unfold peekAcct
+  rw [hroot, bind_ok]
+  have hd : diskGet u k = (a.disk k).map (dataK k) := by
+    unfold diskGet dataK
+    rw [hr.disk k]
+  have := heap_view_refines hr.hrel l k
+  rw [hd]
+  show (peekTop (hsOf u).heap _ _ _ >>= _) = _
+  rw [this, bind_ok]
+  cases specView a l k <;> rfl
+
+/-- a chain of accepted stabilisation steps: the survivors read what they read before, and the persisted accounts
+    are the view of the LAST committed block (the iterated `prune_exact`) -/
+theorem stable_chain_exact : ∀ (cs : List Nat) {a : ASt}, CInv a → StableChain a cs →
+    CInv (run a (cs.map Op.stable)) ∧
+    (∀ x ∈ (run a (cs.map Op.stable)).blocks, x ∈ a.blocks ∧ ∀ k, eff (run a (cs.map Op.stable)) x.label k = eff a x.label k) ∧
+    (∀ c ∈ cs, ∃ b ∈ a.blocks, b.label = c) ∧
+    (∀ l, cs.getLast? = some l → (run a (cs.map Op.stable)).sl = l ∧ ∀ k, (run a (cs.map Op.stable)).disk k = eff a l k)
+  | [], a, hi, _ => ⟨hi, fun x hx => ⟨hx, fun _ => rfl⟩, (fun c hc => by cases hc), (fun l hl => by cases hl)⟩
+  | c :: cs, a, hi, ⟨a1, e1, e2⟩ => by
+    rw [run_stable_cons a c cs e1]
+    obtain ⟨hi1, p1, p2, p3, p4⟩ := prune_exact hi e1
+    obtain ⟨q1, q2, q3, q4⟩ := stable_chain_exact cs hi1 e2
+    obtain ⟨b, hb1, _, _⟩ := aStable_eq e1
+    refine ⟨q1, ?_, ?_, ?_⟩
+    · intro x hx
+      obtain ⟨g1, g2⟩ := q2 x hx
+      exact ⟨((p2 x).mp g1).1, fun k => (g2 k).trans (p3 x g1 k)⟩
+    · intro c' hc'
+      rcases List.mem_cons.mp hc' with rfl | h
+      · exact ⟨b, (findB_some hb1).1, (findB_some hb1).2⟩
+      · obtain ⟨b', g1, g2⟩ := q3 c' h
+        exact ⟨b', ((p2 b').mp g1).1, g2⟩
+    · intro l hl
+      cases cs with
+      | nil =>
+        simp only [List.getLast?_singleton, Option.some.injEq] at hl
+        subst hl
+        exact ⟨p1, p4⟩
+      | cons c2 cs2 =>
+        rw [List.getLast?_cons_cons] at hl
+        obtain ⟨g1, g2⟩ := q4 l hl
+        refine ⟨g1, fun k => ?_⟩
+        rw [g2 k]
+        have hmem : l ∈ c2 :: cs2 := List.mem_of_getLast? hl
+        obtain ⟨b', h1, h2⟩ := q3 l hmem
+        rw [← h2]; exact p3 b' h1 k
+
+/-- **utree_setStable** (`SetStableBlock` of the driver's model, any depth): for an unconfirmed block `l` the model
+    commits the WHOLE path from the old stable block; afterwards the stable block is `l`, the relation holds, every
+    surviving block reads what it read before the call, and the persisted accounts (Collect + batch write on the
+    heap, iterated along the path) are the view `l` had before the call -/
+theorem utree_setStable {u : St} {a : ASt} (hr : URel E u a) {l : Nat} {b : Blk} (hb : findBlk u l = some b) :
+    ∃ u' rm a', setStable u l = .ok (some (u', rm)) ∧ URel E u' a' ∧ a'.sl = l ∧
+      (∀ x ∈ a'.blocks, x ∈ a.blocks ∧ ∀ k, peekAcct u' x.label (E.enc k) k = peekAcct u x.label (E.enc k) k) ∧
+      (∀ k, u'.disk.lookup k = specView a l k) := by
+  obtain ⟨u', rm, cs, h1, h2, h3, h4, h5, _⟩ := urel_setStable hr hb
+  obtain ⟨q1, q2, _, q4⟩ := stable_chain_exact cs hr.cinv h3
+  obtain ⟨g1, g2⟩ := q4 l h5
+  refine ⟨u', rm, _, h1, h2, g1, ?_, ?_⟩
+  · intro x hx
+    obtain ⟨m1, m2⟩ := q2 x hx
+    refine ⟨m1, fun k => ?_⟩
+    have hl' : (findBlk u' x.label).isSome := (h2.live_iff x.label).mpr (by rw [findB_of_mem q1.wf x hx]; rfl)
+    have hl0 : (findBlk u x.label).isSome := (hr.live_iff x.label).mpr (by rw [findB_of_mem hr.cinv.wf x m1]; rfl)
+    rw [utree_view_refines h2 x.label k (Or.inl hl'), utree_view_refines hr x.label k (Or.inl hl0),
+      ← get_refines q1, ← get_refines hr.cinv, m2 k]
+  · intro k
+    rw [h2.disk k, g2 k, get_refines hr.cinv]
+
+end UTreeRefinement
 
 end LemoProofs.C09
